@@ -2,5 +2,8 @@ SPECIFICATION Spec
 CONSTANTS
   MaxDepth = 3
   MaxResets = 2
-INVARIANTS GridDelay ConvDelay TapRange ResetInit RingOK IdxLaw
+  BigDepths = {36}
+  MaxZ = 7
+  GridDepths = {35, 36, 37, 50, 64}
+INVARIANTS GridDelay ConvDelay TapRange ResetInit RingOK IdxLaw KernelForm SilentOut
 CHECK_DEADLOCK FALSE
